@@ -878,6 +878,8 @@ func rulesC02(c *Ctx) {
 		}
 	})
 
+	c.Rule("R-C02-16", "the reply of a batch has one slot per call and none for anything else: wherever msgBatch.responses gets its length (grown by append, or allocated with make) the number of slots is a number of calls — an append under IsCall, or the length of a collection / a counter that is fed under IsCall only. The slice goes out as it is once it is full, so a slot for a notification or a response is a slot nobody fills: the reply is withheld for ever (or carries a null)", func() { c02ReplySlotsRule(c) })
+
 	c.Rule("R-C02-13", "errors.Is is asked the right way round: the sentinel (a package-level error value) is the target, the error in hand is the chain that is searched — errors.Is(sentinel, err) is true only for the bare sentinel and misses every wrapped one (the reject codes, ErrRejected, ErrNotHandled, ErrSessionMissing all travel wrapped)", func() {
 		errIs := c.Std("errors", "", "Is")
 		n := 0
@@ -1154,4 +1156,209 @@ func typeAssertOKVar(f *Func, rel, name string) types.Object {
 		}
 	})
 	return out
+}
+
+// c02ReplySlotsRule (R-C02-16): see the rule text. Roles only: the field msgBatch.responses, (*Request).IsCall, the code
+// behind ioConn.Read (where batches are recorded) and behind ioConn.Write (where the reply is released).
+func c02ReplySlotsRule(c *Ctx) {
+	respF := c.Field(pM, "msgBatch", "responses")
+	isCall := c.FnObj(pJ, "Request", "IsCall")
+	rd := c.Fn(pM, "ioConn", "Read")
+	wr := c.Fn(pM, "ioConn", "Write")
+	callGuard := func(f *Func, n ast.Node) bool {
+		g := f.Graph()
+		v := g.VertexOf(n)
+		if v < 0 {
+			return false
+		}
+		return hasAtom(g.GuardsAt(v), func(a Atom) bool { return atomSaysIsCall(f, a, isCall, true) })
+	}
+	// the slice is released as it stands: some function behind Write returns the field itself
+	releasedRaw := false
+	for _, f0 := range c.pkgClosure(wr) {
+		for _, f := range append([]*Func{f0}, f0.AllLits()...) {
+			for _, r := range f.Returns() {
+				for _, res := range r.Results {
+					if f.IsField(res, respF) {
+						releasedRaw = true
+					}
+				}
+			}
+		}
+	}
+	var fns []*Func
+	seen := map[*Func]bool{}
+	for _, f0 := range c.pkgClosure(rd) {
+		for _, f := range append([]*Func{f0}, f0.AllLits()...) {
+			if !seen[f] {
+				seen[f] = true
+				fns = append(fns, f)
+			}
+		}
+	}
+	// every write of a local, with the function in whose body it stands
+	type c02w struct {
+		f *Func
+		w Write
+	}
+	writesOf := func(f *Func, obj types.Object) []c02w {
+		var out []c02w
+		root := f.Root()
+		for _, x := range append([]*Func{root}, root.AllLits()...) {
+			for _, w := range Writes(x.Body, false) {
+				if id, ok := ast.Unparen(w.LHS).(*ast.Ident); ok && x.ObjOf(id) == obj {
+					out = append(out, c02w{x, w})
+				}
+			}
+		}
+		return out
+	}
+	isParam := func(f *Func, obj types.Object) bool {
+		for x := f; x != nil; x = x.Parent {
+			for _, p := range x.Params() {
+				if types.Object(p) == obj {
+					return true
+				}
+			}
+		}
+		return false
+	}
+	// callsOnly: a local collection that starts empty and grows by append under IsCall only
+	callsOnly := func(f *Func, obj types.Object) bool {
+		if obj == nil || isParam(f, obj) || f.Root().addressTaken(obj) {
+			return false
+		}
+		grown := 0
+		for _, cw := range writesOf(f, obj) {
+			r := cw.w.RHS
+			if r == nil {
+				if _, isVS := cw.w.Stmt.(*ast.ValueSpec); isVS {
+					continue
+				}
+				return false
+			}
+			if empty, _ := cw.f.emptySlice(r); empty {
+				continue
+			}
+			ce, ok := ast.Unparen(r).(*ast.CallExpr)
+			if ok && cw.f.BuiltinName(ce) == "append" && len(ce.Args) >= 1 && cw.f.ObjOf(ce.Args[0]) == obj && !ce.Ellipsis.IsValid() && callGuard(cw.f, cw.w.Stmt) {
+				grown++
+				continue
+			}
+			return false
+		}
+		return grown > 0
+	}
+	// countsCalls: a local integer that starts at zero and is stepped under IsCall only
+	countsCalls := func(f *Func, obj types.Object) bool {
+		if obj == nil || isParam(f, obj) || f.Root().addressTaken(obj) {
+			return false
+		}
+		stepped := 0
+		for _, cw := range writesOf(f, obj) {
+			if _, isInc := cw.w.Stmt.(*ast.IncDecStmt); isInc && cw.w.Tok == token.INC && callGuard(cw.f, cw.w.Stmt) {
+				stepped++
+				continue
+			}
+			if cw.w.RHS == nil {
+				if _, isVS := cw.w.Stmt.(*ast.ValueSpec); isVS {
+					continue
+				}
+				return false
+			}
+			if z, isZ := cw.f.ConstInt(cw.w.RHS); isZ && z == 0 {
+				continue
+			}
+			return false
+		}
+		return stepped > 0
+	}
+	holdsAnyMessage := func(f *Func, e ast.Expr) bool {
+		t := f.TypeOf(e)
+		if t == nil {
+			return false
+		}
+		var el types.Type
+		switch u := t.Underlying().(type) {
+		case *types.Slice:
+			el = u.Elem()
+		case *types.Array:
+			el = u.Elem()
+		case *types.Map:
+			el = u.Elem()
+		}
+		if el == nil {
+			return false
+		}
+		n := namedOf(el)
+		if n == nil || n.Obj().Pkg() == nil || relOf(n.Obj().Pkg().Path()) != pJ || n.Obj().Name() != "Message" {
+			return false
+		}
+		_, isIface := n.Underlying().(*types.Interface)
+		return isIface
+	}
+	sites := 0
+	judge := func(f *Func, at ast.Node, val ast.Expr) {
+		ce, ok := ast.Unparen(val).(*ast.CallExpr)
+		if !ok {
+			return
+		}
+		switch f.BuiltinName(ce) {
+		case "append":
+			if len(ce.Args) == 0 || !f.IsField(ce.Args[0], respF) {
+				return
+			}
+			sites++
+			c.Check(callGuard(f, at), "batch-reply:slot-per-call:"+f.Name()+":append", f, at, "msgBatch.responses grows by a slot only for a message that is a call (IsCall holds where it is appended to)")
+		case "make":
+			if len(ce.Args) < 2 {
+				return
+			}
+			sites++
+			key := "batch-reply:slot-per-call:" + f.Name() + ":make"
+			n := ast.Unparen(ce.Args[1])
+			if z, isZ := f.ConstInt(n); isZ && z == 0 {
+				c.Ok(key, f, at, "msgBatch.responses is allocated empty; its slots come from append")
+				return
+			}
+			if lc, isC := n.(*ast.CallExpr); isC && f.BuiltinName(lc) == "len" && len(lc.Args) == 1 {
+				coll := ast.Unparen(lc.Args[0])
+				id, isID := coll.(*ast.Ident)
+				switch {
+				case isID && callsOnly(f, f.ObjOf(id)):
+					c.Ok(key, f, at, "msgBatch.responses has len(%s) slots, and %s is filled under IsCall only: one slot per call", exprStr(coll), exprStr(coll))
+				case holdsAnyMessage(f, coll) && releasedRaw:
+					c.Fail(key, f, at, "msgBatch.responses has len(%s) slots, one per message of the payload whatever its kind; the slot of a notification (or of a response) is never filled, so a batch that mixes one with calls is never answered (the slice is released only as a whole)", exprStr(coll))
+				default:
+					c.Undecided(key, f, at, "msgBatch.responses has len(%s) slots; what %s counts is not decided here", exprStr(coll), exprStr(coll))
+				}
+				return
+			}
+			if id, isID := n.(*ast.Ident); isID && countsCalls(f, f.ObjOf(id)) {
+				c.Ok(key, f, at, "msgBatch.responses has %s slots, a counter stepped under IsCall only", id.Name)
+				return
+			}
+			c.Undecided(key, f, at, "msgBatch.responses is allocated with %s slots; what that number counts is not decided here", exprStr(n))
+		}
+	}
+	for _, f := range fns {
+		c.touch(f)
+		inspectNoLit(f.Body, func(x ast.Node) {
+			switch s := x.(type) {
+			case *ast.AssignStmt:
+				if len(s.Lhs) == len(s.Rhs) {
+					for i, l := range s.Lhs {
+						if f.IsField(l, respF) {
+							judge(f, s, s.Rhs[i])
+						}
+					}
+				}
+			case *ast.KeyValueExpr:
+				if k, ok := s.Key.(*ast.Ident); ok && f.Info().Uses[k] == types.Object(respF) {
+					judge(f, s, s.Value)
+				}
+			}
+		})
+	}
+	c.Pin("places where msgBatch.responses gets its length behind ioConn.Read", sites, 1)
 }
